@@ -915,6 +915,46 @@ func legalPipelines() [][]step {
 	}
 }
 
+// deepSequences returns, for every canonical legal prefix that reaches a deep state (playing,
+// paused, recording, paused recording, over TCP and UDP), all continuations of length 1..depth
+// over the alphabet: the exhaustive part cannot reach these states below its depth bound.
+func deepSequences(depth int) [][]step {
+	idx := func(name string) int {
+		for i, s := range alphabet {
+			if s.Name == name {
+				return i
+			}
+		}
+		panic(name)
+	}
+	mk := func(ns ...string) []step {
+		var o []step
+		for _, n := range ns {
+			o = append(o, step{Sym: idx(n)})
+		}
+		return o
+	}
+	prefixes := [][]step{
+		mk("SETUP0-play-tcp", "SETUP1-play-tcp"),
+		mk("SETUP0-play-tcp", "SETUP1-play-tcp", "PLAY"),
+		mk("SETUP0-play-tcp", "SETUP1-play-tcp", "PLAY", "PAUSE"),
+		mk("SETUP1-play-udp", "PLAY"),
+		mk("SETUP0-play-udp", "SETUP1-play-udp", "PLAY", "PAUSE"),
+		mk("ANNOUNCE", "SETUP0-rec-tcp", "SETUP1-rec-tcp"),
+		mk("ANNOUNCE", "SETUP0-rec-tcp", "SETUP1-rec-tcp", "RECORD"),
+		mk("ANNOUNCE", "SETUP0-rec-tcp", "SETUP1-rec-tcp", "RECORD", "PAUSE"),
+		mk("ANNOUNCE", "SETUP0-rec-udp", "SETUP1-rec-udp", "RECORD"),
+		mk("ANNOUNCE", "SETUP0-rec-udp", "SETUP1-rec-udp", "RECORD", "PAUSE"),
+	}
+	var out [][]step
+	for _, suf := range allSequences(len(alphabet), depth) {
+		for _, p := range prefixes {
+			out = append(out, append(append([]step{}, p...), suf...))
+		}
+	}
+	return out
+}
+
 func startServer(cfg config) *rig.TestServer {
 	ts, err := rig.StartServer(rig.ServerOpts{UDP: cfg.UDP, Multicast: cfg.Multicast, TLS: cfg.TLS, HandlerSet: cfg.HandlerSet, NoLog: true, OnEvent: onEvent})
 	if err != nil {
@@ -1021,6 +1061,11 @@ func main() {
 	run.Count("enumerated-sequences", int64(len(seqs)))
 	runBatch(full, seqs, legalPipelines())
 
+	// 1b. every continuation of length 1..2 (thorough: 3) of each canonical deep state
+	deep := deepSequences(run.Pick(2, 3))
+	run.Count("deep-state-continuations", int64(len(deep)))
+	runBatch(full, deep, nil)
+
 	// 2. other configurations: handler subsets and transport / TLS settings, sampled + depth-2 exhaustive
 	var cfgs []config
 	for _, hs := range []string{"std", "no-record", "no-play", "no-pause", "describe-only", "none"} {
@@ -1061,5 +1106,5 @@ func main() {
 	run.Extra("exhaustive_part", fmt.Sprintf("all %d sequences of length 1..%d over the %d-symbol alphabet on configuration %s", len(seqs), depth, len(alphabet), full.Name))
 	run.Assume("status class (2xx vs error) and ServerSession.State() are compared, not exact status codes; connection fate after an error response is not predicted")
 	run.Assume("documented state-preserving leniencies accepted either way: PLAY while playing, PAUSE while paused, unknown Session id on SETUP/ANNOUNCE without session treated as absent, DESCRIBE with unknown Session id")
-	run.Finish(evals.Load(), "request sequences over a 16-symbol alphabet (+3 sampled-only symbols, 3 Session-header variants) on fresh connections to a real Server, exhaustive up to the depth bound on the full configuration and depth 2 on the others, model-steered samples of length 5..12 beyond; distinct_nontrivial = distinct (configuration, model state, request, session-header variant) combinations exercised + distinct pipelined batches + timing cases")
+	run.Finish(evals.Load(), "request sequences over a 16-symbol alphabet (+3 sampled-only symbols, 3 Session-header variants) on fresh connections to a real Server, exhaustive up to the depth bound on the full configuration (plus every continuation of length 1..2, thorough 3, of ten canonical deep states) and depth 2 on the others, model-steered samples of length 5..12 beyond; distinct_nontrivial = distinct (configuration, model state, request, session-header variant) combinations exercised + distinct pipelined batches + timing cases")
 }
